@@ -630,6 +630,7 @@ func runScenario(sc scenario, direct map[string][]*request) func(t *testing.T, x
 			alt gate.Alt
 			do  func()
 		}
+		cur := -1 // concurrent schedules: the client that moved last
 		for steps := 0; ; steps++ {
 			synctest.Wait()
 			pend := w.env.Pending()
@@ -664,23 +665,42 @@ func runScenario(sc scenario, direct map[string][]*request) func(t *testing.T, x
 				x.Violation("horizon", "%v: no end after 400 decision points", sc)
 				break
 			}
-			// default schedule: (sequential) finish the request in flight, then let the detached cache
-			// writes land, then start the next operation; (concurrent) start every client first
-			zero := "cp"
-			switch {
-			case sc.Concurrent && len(idle) > 0:
-				zero = "start"
-			case len(cp) > 0:
-				zero = "cp"
-			case len(sp) > 0:
-				zero = "sp"
-			default:
-				zero = "start"
-			}
-			answers := func(ps []*gate.Pending, class string) {
-				for i, p := range ps {
+			if sc.Concurrent {
+				// preemption-bounded schedule: continuing the client that moved last is free, and so
+				// is any client when that one has finished its operation; taking the turn away from a
+				// client that could go on costs 1, as does every non-default answer. Detached cache
+				// writes are threads of their own: they land for free only when no client can move.
+				clientOf := func(p *gate.Pending) int { return p.Info.(callInfo).req.ID/1000 - 1 }
+				curCanMove := false
+				for _, p := range cp {
+					if clientOf(p) == cur {
+						curCanMove = true
+					}
+				}
+				for _, p := range cp {
 					base := 1
-					if zero == class && i == 0 {
+					if clientOf(p) == cur || !curCanMove {
+						base = 0
+					}
+					ci, who := p.Info.(callInfo), clientOf(p)
+					for j, how := range w.menu(ci) {
+						c := base
+						if j > 0 {
+							c++
+						}
+						add(p.Key+" <- "+how, c, func() { cur = who; w.env.Answer(p, w.apply(ci, how)) })
+					}
+				}
+				for _, k := range idle {
+					c := 1
+					if !curCanMove {
+						c = 0
+					}
+					add(fmt.Sprintf("start c%d %s", k+1, cls[k].ops[cls[k].next]), c, func() { cur = k; start(k) })
+				}
+				for i, p := range sp {
+					base := 1
+					if len(cp) == 0 && len(idle) == 0 && i == 0 {
 						base = 0
 					}
 					ci := p.Info.(callInfo)
@@ -689,18 +709,44 @@ func runScenario(sc scenario, direct map[string][]*request) func(t *testing.T, x
 						if j > 0 {
 							c++
 						}
-						add(p.Key+" <- "+how, c, func() { w.env.Answer(p, w.apply(ci, how)) })
+						add(p.Key+" <- "+how, c, func() { cur = -1; w.env.Answer(p, w.apply(ci, how)) })
 					}
 				}
-			}
-			answers(cp, "cp")
-			answers(sp, "sp")
-			for k, ci := range idle {
-				c := 1
-				if zero == "start" && k == 0 {
-					c = 0
+			} else {
+				// sequential schedule: finish the request in flight, then let the detached cache writes
+				// land, then start the next operation; everything else is a deviation
+				zero := "start"
+				switch {
+				case len(cp) > 0:
+					zero = "cp"
+				case len(sp) > 0:
+					zero = "sp"
 				}
-				add(fmt.Sprintf("start c%d %s", ci+1, cls[ci].ops[cls[ci].next]), c, func() { start(ci) })
+				answers := func(ps []*gate.Pending, class string) {
+					for i, p := range ps {
+						base := 1
+						if zero == class && i == 0 {
+							base = 0
+						}
+						ci := p.Info.(callInfo)
+						for j, how := range w.menu(ci) {
+							c := base
+							if j > 0 {
+								c++
+							}
+							add(p.Key+" <- "+how, c, func() { w.env.Answer(p, w.apply(ci, how)) })
+						}
+					}
+				}
+				answers(cp, "cp")
+				answers(sp, "sp")
+				for k, ci := range idle {
+					c := 1
+					if zero == "start" && k == 0 {
+						c = 0
+					}
+					add(fmt.Sprintf("start c%d %s", ci+1, cls[ci].ops[cls[ci].next]), c, func() { start(ci) })
+				}
 			}
 			sort.SliceStable(acts, func(i, j int) bool { return acts[i].alt.Cost < acts[j].alt.Cost })
 			alts := make([]gate.Alt, len(acts))
